@@ -164,6 +164,20 @@ func (g *gen) lookupName(env *specEnv, name string) (Val, error) {
 			}
 		}
 		if dr, ok := g.debugVals[name]; ok {
+			if c, isConst := dr.v.(*ssa.Const); isConst && c.Value == nil && dr.obj != nil {
+				// go/ssa records `x := T{...}` first as the zero value; prefer an already computed value of the same variable
+				for _, b := range fn.Blocks {
+					for _, ins := range b.Instrs {
+						if d, ok := ins.(*ssa.DebugRef); ok && d.Object() == dr.obj && !d.IsAddr {
+							if _, isC := d.X.(*ssa.Const); !isC {
+								if v, known := g.vals[d.X]; known {
+									return v, nil
+								}
+							}
+						}
+					}
+				}
+			}
 			v := g.val(dr.v)
 			if dr.isAddr {
 				return g.load(v, dr.v.Type().Underlying().(*types.Pointer).Elem()), nil
@@ -603,6 +617,21 @@ func (g *gen) evalCall(env *specEnv, e *SExpr) (Val, error) {
 		return Val{}, fmt.Errorf("addr(): unknown variable %s", e.Args[0].Name)
 	case "now":
 		return intVal(g.now()), nil
+	case "fnid":
+		// fnid("pkg.func$1"): the identity of a function used as a value
+		if len(e.Args) != 1 || e.Args[0].Op != "str" {
+			return Val{}, fmt.Errorf("fnid(\"key\") expected")
+		}
+		key := e.Args[0].Lit
+		if _, ok := g.e.funcs[key]; !ok {
+			if env.pkg != nil {
+				key = shortPkg(env.pkg.Path()) + "." + key
+			}
+			if _, ok := g.e.funcs[key]; !ok {
+				return Val{}, fmt.Errorf("fnid(): unknown function %q", e.Args[0].Lit)
+			}
+		}
+		return Val{T: funcID(key), Sort: "Int"}, nil
 	case "the":
 		// the("T"): the unique object of struct type T allocated by this function
 		if len(e.Args) != 1 || e.Args[0].Op != "str" {
@@ -766,6 +795,39 @@ func (g *gen) evalCall(env *specEnv, e *SExpr) (Val, error) {
 	case "cursorPrivate":
 		g.declareFun("cursorPrivate", []string{"Int"}, "Bool")
 		return boolVal(app("cursorPrivate", args[0].T)), nil
+	case "seen":
+		// seen(k): key k was already produced by the (last started) range over a map in this function
+		if g.rangeSeen == "" {
+			return Val{}, fmt.Errorf("seen(): no range over a map in %s", g.key)
+		}
+		return boolVal(app("select", g.heapGet(g.rangeSeen, arr(g.rangeSeenSort, "Bool")), args[0].T)), nil
+	case "dynStr":
+		if len(args) < 1 {
+			return Val{}, fmt.Errorf("dynStr(f, args...) expected")
+		}
+		var sorts2, ts2 []string
+		for _, a := range args {
+			sorts2 = append(sorts2, a.Sort)
+			ts2 = append(ts2, a.T)
+		}
+		name2 := "dyn_" + sanitize(strings.Join(sorts2[1:], "_")) + "_String"
+		g.declareFun(name2, sorts2, "String")
+		return strVal(app(name2, ts2...)), nil
+	case "dyn":
+		if len(args) < 1 {
+			return Val{}, fmt.Errorf("dyn(f, args...) expected")
+		}
+		var sorts, ts []string
+		for _, a := range args {
+			sorts = append(sorts, a.Sort)
+			ts = append(ts, a.T)
+		}
+		name := "dyn_" + sanitize(strings.Join(sorts[1:], "_")) + "_Bool"
+		g.declareFun(name, sorts, "Bool")
+		if !g.inAxiom {
+			g.useAbstract("dyn")
+		}
+		return boolVal(app(name, ts...)), nil
 	case "born":
 		t := args[0].T
 		if args[0].Sort == "Slice" {
@@ -876,7 +938,15 @@ func (g *gen) useAbstract(name string) {
 		}
 		g.assumed["axiom:"+ax.Label] = true
 		env := &specEnv{vars: map[string]Val{}, pkg: g.pkgTypes(), calleeMode: true}
+		if ax.Pkg != "" {
+			if p, ok := g.e.byPkg[repoMod+"/"+ax.Pkg]; ok && p.Types != nil {
+				env.pkg = p.Types
+			}
+		}
+		saveIn := g.inAxiom
+		g.inAxiom = true
 		t, err := g.evalBool(env, ax.E)
+		g.inAxiom = saveIn
 		if err != nil {
 			g.unsupportedf("axiom %s: %v", ax.Label, err)
 			continue
